@@ -156,6 +156,18 @@ def fall_end(cs, idx, eom_flag):
     return cs.slots[idx].tf + fall_of(cs, idx, eom_flag)
 
 
+def ref_phase_jump_time(ch):
+    """Reference (documented): custom_phase_jump_time when defined, else two times the rise time."""
+    c = ch.custom_phase_jump_time
+    return c if c is not None else 2 * ch.rise_time
+
+
+def ref_eom_buffer_time(ch):
+    """Reference (documented): the EOM buffer lasts the configured custom_buffer_time, else twice the channel's rise time."""
+    cb = ch.eom_config.custom_buffer_time
+    return cb if cb is not None and not (not is_sym(cb) and cb == 0) else 2 * ch.rise_time
+
+
 def ref_is_detuned_delay(pulse):
     """Reference (not the implementation's): a delay with a constant detuning is a Pulse whose amplitude is a
     ConstantWaveform of value 0 and whose detuning is a ConstantWaveform."""
@@ -444,7 +456,7 @@ def refusal_cause(inp, sched, shape, old, op, t0, loc):
     c_fall = AND(fall > 0, OR(over_seq(sched, t0 + fd), over_len(ch, fd), over_len(ch, smax(fall, ch.min_duration))))
     if op[0] == "wait_for_fall":
         return c_fall
-    buf = adjust_ref(ch._eom_buffer_time, ch, clock) if ch.eom_config is not None else 0
+    buf = adjust_ref(ref_eom_buffer_time(ch), ch, clock) if ch.eom_config is not None else 0
     if op[0] == "enable_eom":
         if len(old["own"]) <= 1:
             return False  # empty channel: nothing is added, nothing can be refused
@@ -539,7 +551,7 @@ def expected_start(sched, shape, old, barriers, t0, obs=None, s=None):
                 break
         if lp is not None and float(old_own[lp].type.phase) != PHASES[ph]:
             in_eom = bool(_chan_in_eom(shape["own"]))
-            pjt = ch.phase_jump_time
+            pjt = ref_phase_jump_time(ch)
             if in_eom:
                 pjt = smax(pjt, 2 * ch.rise_time)
             gap_need = pjt + fall_of(own, lp, in_eom)
@@ -608,7 +620,7 @@ def eom_obligations(inp, sched, shape, old, snap, new_slots, t0):
     op = shape["op"]
     old_own = old["own"]
     old_blocks = snap["own"][1]
-    buf_len = adjust_ref(ch._eom_buffer_time, ch, clock)
+    buf_len = adjust_ref(ref_eom_buffer_time(ch), ch, clock)
     was_in_eom = _chan_in_eom(ocfg)
     lp = last_pulse_idx(own, before=len(old_own))
     if op[0] in ("enable_eom", "modify_eom"):
